@@ -27,7 +27,7 @@ checks = {
          "boundary vectors rendered by the real renderers and judged by TLC (Output/Human specs, exact arithmetic)", "4-C11"),
  "C12": (MC, "Human.tla states the rounding rules in exact BigNat arithmetic (largest prefix, decimals from the whole part, half-unit bound with both neighbours admissible on ties, >=3 significant digits, <=5 characters, monotone magnitude); HumanMC lets TLC generate the neighbourhoods of every rounding/precision/prefix boundary and checks satisfiability; every value (plus stratified random 64-bit values) is rendered by the real Humaner.FormatNumber and judged by TLC (HumanJudge), neighbours for monotonicity.",
          "TLC-generated boundary values rendered by the real FormatNumber and judged by TLC in exact arithmetic", "4-C12"),
- "C13": ("exploration", "Every repository flavour (plain, replace refs of commits/trees/blobs, grafts adding/dropping/redirecting parents, shallow marker) (also a graft file named by the caller's GIT_GRAFT_FILE and a stale empty shallow marker) is addressed in 17 ways (top, subdirectory, inside .git, gitfile absolute/relative, GIT_DIR absolute / relative / '.' / a symbolic link / with GIT_WORK_TREE, git -C dir sizer, linked worktree and subdirectory, bare copy, start directory entered through symbolic links with the logical PWD a shell sets): byte-identical stdout across modes, equal to the ObjGraph oracle on the objects as stored (TLC, ScanJudge), the same again with ROOT arguments that git must resolve through possibly replaced or grafted commits (R^{tree}, R~1); the fake git's log, validated against Proto (ProtoTrace), shows --no-replace-objects, GIT_GRAFT_FILE=/dev/null and the real GIT_DIR on every invocation (shape); shallow is refused. CliRun.tla carries the corresponding invariants at design level only, so the claim is exploration of generated scenarios.",
+ "C13": ("exploration", "Every repository flavour (plain, replace refs of commits/trees/blobs, grafts adding/dropping/redirecting parents, shallow marker) (also a graft file named by the caller's GIT_GRAFT_FILE and a stale empty shallow marker) is addressed in 18 ways (top, subdirectory, inside .git, gitfile absolute/relative, GIT_DIR absolute / relative / '.' / a symbolic link / with GIT_WORK_TREE, git -C dir sizer, linked worktree and subdirectory, bare copy, start directory entered through symbolic links with the logical PWD a shell sets): byte-identical stdout across modes, equal to the ObjGraph oracle on the objects as stored (TLC, ScanJudge), the same again with ROOT arguments that git must resolve through possibly replaced or grafted commits (R^{tree}, R~1); the fake git's log, validated against Proto (ProtoTrace), shows --no-replace-objects, GIT_GRAFT_FILE=/dev/null and the real GIT_DIR on every invocation (shape); shallow is refused. CliRun.tla carries the corresponding invariants at design level only, so the claim is exploration of generated scenarios.",
          "addressing x flavour scenarios through the real binary under a logging fake git, reports judged by TLC against the stored-object oracle", "4-C13"),
  "C14": (MC, "Cli.tla defines the effective settings as a fold over the argument list with gitconfig consulted iff no option of the family is given, and the canonical command line; TLC enumerates argument sequences x gitconfig states per family, checks the laws, and exports each scenario with its canonical form or Error; each is run on the real binary as (gitconfig, args) and as canonical command line without gitconfig: byte-identical stdout, same progress, or failure exactly when the spec says so; documented equivalent spellings likewise.",
          "TLC-enumerated option/gitconfig scenarios run as paired executions of the real binary", "4-C14"),
